@@ -17,7 +17,7 @@ MANIFEST = dict(
         "restores every archived expression, for every state and every fresh object' (read_write_id, class_roundtrip, "
         "behaviour_preserved, optimizer_continues); dataset codecs (dense, sparse, labelled; any batch structure incl. empty "
         "and single-element) decode what they encode (dataset_roundtrip_*). The correspondence round-trips real instances "
-        "(models, kernels incl. ModelKernel, kernel expansions with kernel, normalizer, datasets, seven optimizers after k "
+        "(models, kernels incl. ModelKernel, kernel expansions with kernel, normalizer, datasets, eight optimizers after k "
         "steps) through polymorphic text and binary archives and compares behaviour exactly."),
   note=TRUST + "boost.serialization (tokens <-> bytes, pointer tracking) is not modelled; that a member's value determines behaviour "
        "the way the C++ uses it is exercised by the harness on the instantiated classes only (~25 of 108 classes); "
@@ -51,7 +51,7 @@ OBJECTS = {
 OPTIMIZERS = {
     "SteepestDescent": "SteepestDescent", "Rprop": "Rprop", "Adam": "Adam",
     "BFGS": "BFGS,AbstractLineSearchOptimizer,LineSearch", "LBFGS": "LBFGS,AbstractLineSearchOptimizer,LineSearch",
-    "CG": "CG,AbstractLineSearchOptimizer,LineSearch", "CMA": "CMA",
+    "CG": "CG,AbstractLineSearchOptimizer,LineSearch", "TrustRegionNewton": "TrustRegionNewton", "CMA": "CMA",
 }
 
 
@@ -94,8 +94,7 @@ def load_corpus():
     return out
 
 
-FINDING_OF = {"ModelKernel": "F7-ModelKernel-read-signature", "SteepestDescent": "F8a-SteepestDescent-state",
-              "Rprop": "F8b-Rprop-state",
+FINDING_OF = {"ModelKernel": "F7-ModelKernel-read-signature",
               "ConcatenatedModel": "F10-ConcatenatedModel-read-into-copy"}
 
 
